@@ -95,6 +95,8 @@ type LoopSpec struct {
 type Contract struct {
 	PkgPath    string
 	Key        string // "Cipher", "Writer.Flush", "Parameters.Parse$1"
+	InvokeEnsures map[string][]*Clause // assumed facts about abstract interface calls made by this function
+	InvokeAssigns map[string][]*AssignItem // extra frame of abstract interface calls made by this function
 	FuncType   string // funcval contract: the function type it applies to
 	IsIface    bool   // interface method contract: Key = "io.Reader.Read"
 	Sig        string // for iface: parameter list text
@@ -138,7 +140,7 @@ type ContractSet struct {
 	Errs  []string
 }
 
-var clauseKeywords = map[string]bool{"funcval": true, "impls": true, "cases": true, "func": true, "iface": true, "props": true, "requires": true, "ensures": true,
+var clauseKeywords = map[string]bool{"invoke": true, "funcval": true, "impls": true, "cases": true, "func": true, "iface": true, "props": true, "requires": true, "ensures": true,
 	"assigns": true, "loop": true, "inline": true, "trusted": true, "lemma": true, "call": true, "unproved": true}
 
 // ParseContractFile reads the //@ lines of one contract file.
@@ -309,6 +311,32 @@ func ParseContractFile(path, pkgPath string, cs *ContractSet) {
 			case "inline":
 				for _, f := range strings.Fields(strings.ReplaceAll(rest, ",", " ")) {
 					cur.Inline[f] = true
+				}
+			case "invoke":
+				// invoke io.Reader.Read assigns r.raw, bytes(p): calls of that interface method made by
+				// this function use the abstract contract and may additionally modify the listed locations
+				fs := strings.SplitN(rest, " ", 3)
+				if len(fs) == 3 && fs[1] == "ensures" {
+					// invoke io.Reader.Read ensures [label] clause over c_self, c_<param>, c_<result> and the
+					// function's own parameters: an ASSUMED fact about what the black box does here
+					if cur.InvokeEnsures == nil {
+						cur.InvokeEnsures = map[string][]*Clause{}
+					}
+					cl := mkClause("ensures", fs[2])
+					cur.InvokeEnsures[fs[0]] = append(cur.InvokeEnsures[fs[0]], cl)
+					continue
+				}
+				if len(fs) != 3 || fs[1] != "assigns" {
+					addErr(ln, "invoke needs: <iface.method> assigns <items> | ensures [label] <clause>")
+					continue
+				}
+				if cur.InvokeAssigns == nil {
+					cur.InvokeAssigns = map[string][]*AssignItem{}
+				}
+				for _, it := range splitTop(fs[2], ',') {
+					a := &AssignItem{Text: strings.TrimSpace(it)}
+					cur.InvokeAssigns[fs[0]] = append(cur.InvokeAssigns[fs[0]], a)
+					lastAssign = a
 				}
 			case "call":
 				// call <callee> contract|inline|havoc
@@ -1169,6 +1197,48 @@ func GenerateWrappers(pkg *packages.Package, cs *ContractSet) (string, []string)
 		}
 		for _, a := range c.Assigns {
 			g.compileAssign(c, a, si, fpos, "pre")
+		}
+		for k, cls := range c.InvokeEnsures {
+			var ic *Contract
+			for _, o := range mine {
+				if o.IsIface && o.Key == k {
+					ic = o
+				}
+			}
+			if ic == nil {
+				g.errs = append(g.errs, fmt.Sprintf("%s:%d: invoke %s: no iface contract of that name in this package", c.File, c.Line, k))
+				continue
+			}
+			iparams, iresults, err := splitSig(ic.Sig)
+			if err != nil {
+				g.errs = append(g.errs, fmt.Sprintf("%s:%d: %v", c.File, c.Line, err))
+				continue
+			}
+			j := strings.LastIndex(k, ".")
+			ifaceName := strings.TrimPrefix(k[:j], g.pkg.Name+".")
+			pl := []string{"c_self " + ifaceName}
+			for _, d := range append(append([]string{}, iparams...), iresults...) {
+				pl = append(pl, "c_"+d)
+			}
+			for _, pv := range si.params {
+				pl = append(pl, pv.Name()+" "+g.typeStr(pv.Type()))
+			}
+			for _, cl := range cls {
+				g.n++
+				cl.Wrapper = strings.ReplaceAll(fmt.Sprintf("vc_invoke_%s_%s_%d", sanitize(strings.ReplaceAll(c.Key, ".", "_")), sanitize(cl.Label), g.n), ".", "_")
+				cl.RetType = "bool"
+				fmt.Fprintf(&g.buf, "// %s: assumed of calls to %s [%s]\nfunc %s(%s) bool { return %s }\n\n", c.Key, k, cl.Label, cl.Wrapper, strings.Join(pl, ", "), rewriteImplies(cl.Text))
+			}
+		}
+		var ikeys []string
+		for k := range c.InvokeAssigns {
+			ikeys = append(ikeys, k)
+		}
+		sort.Strings(ikeys)
+		for _, k := range ikeys {
+			for _, a := range c.InvokeAssigns[k] {
+				g.compileAssign(c, a, si, fpos, "loop")
+			}
 		}
 		loops := loopsOf(body)
 		var ords []int
